@@ -358,6 +358,33 @@ def judge_fast(case, impl, model):
     return ("; ".join(msgs)[:1500] if msgs else None), fails
 
 
+def judge_firstuse(case, impl, model):
+    """order of first use: the first instance of a fresh FastSerializable class comes from a shortcut path"""
+    if "path_err" in impl or "path_err2" in impl or "x" not in impl:
+        return None, []
+    path = case["path"]
+    first, warm = impl.get("docs_first") or [], impl.get("docs_warm") or []
+    # the trusted constructor installs the serializer once per KEYWORD: an instance made from no values leaves its
+    # class without one (finding first-use-order:no-values; the model has it for the top instance only)
+    nv_nested = any(e.get("nv") and e.get("err") == "NotImplementedError" for e in first[1:])
+    if nv_nested and "err" in (impl.get("fast") or {}):
+        impl = {k: v for k, v in impl.items() if k not in ("fast", "regular")}
+    if impl.get("no_values") and (impl.get("fast") or {}).get("err") == "NotImplementedError":
+        impl = {k: v for k, v in impl.items() if k != "regular"}      # reported below as first-use-order:no-values
+    msgs, fails = judge_fast(case, impl, model)
+    strip = lambda es: [{k: v for k, v in e.items() if k != "nv"} for e in es]
+    if strip(first) != strip(warm):
+        i = next((k for k, (u, v) in enumerate(zip(strip(first), strip(warm))) if u != v), min(len(first), len(warm)))
+        u = first[i] if i < len(first) else None
+        v = warm[i] if i < len(warm) else None
+        no_values = any(e.get("nv") and e.get("err") == "NotImplementedError" for e in first)
+        key = "first-use-order:" + ("no-values" if no_values else path + (":nested" if i else ""))
+        fails.append((key, f"a fresh FastSerializable class tree whose first instance is made by path '{path}': serialize() of "
+                      f"instance #{i} gives {json.dumps(u)[:200]}, but {json.dumps(v)[:200]} when every class was instantiated "
+                      f"by the validating constructor before; instance={json.dumps(impl.get('x'))[:200]}"))
+    return msgs, fails
+
+
 def judge_enumvalue(case, impl, model):
     """Enum fields by name / by value over enum classes of every kind: the statement on the real code only"""
     fails = []
@@ -415,4 +442,4 @@ def judge(case, impl, model):
     if "abstraction_mismatch" in impl:
         return "dump(build(decl)) != decl: " + json.dumps(impl["abstraction_mismatch"])[:600], []
     return {"trusted": judge_trusted, "construct": judge_construct, "fast": judge_fast,
-            "enumvalue": judge_enumvalue}[case["mode"]](case, impl, model)
+            "enumvalue": judge_enumvalue, "firstuse": judge_firstuse}[case["mode"]](case, impl, model)
